@@ -10,6 +10,10 @@ ArgumentNode = namedtuple("ArgumentNode", ("name", "value", "lineno"))
 ExpressionNode = namedtuple("ExpressionNode", ("value", "lineno"))
 
 
+class MixedListError(Exception):
+    """ Raised by grammar actions (where PLY would swallow a SyntaxError) and reported by parse() as a SyntaxError """
+
+
 class Lexer(object):
     def __init__(self):
         self.lexer = lex.lex(module=self)
@@ -233,6 +237,9 @@ class Parser(object):
         elements : element COMMA elements
         """
 
+        if not isinstance(p[3], list):
+            raise MixedListError("Syntax error at position {0}: a list cannot contain key/value pairs".format(p.lexpos(2)))
+
         p[0] = [p[1]] + p[3]
 
     def p_elements_element(self, p):
@@ -307,4 +314,7 @@ class Parser(object):
         # type: (str) -> ProgramNode
         """ Parses the source text into a program structure """
 
-        return self.parser.parse(source, lexer=self.lexer, tracking=True)
+        try:
+            return self.parser.parse(source, lexer=self.lexer, tracking=True)
+        except MixedListError as exc:
+            raise SyntaxError(str(exc))
